@@ -120,8 +120,12 @@ def rule_sym(ctx):
         if not ok_paths:
             ctx.violated("C03.SYM", ci.short, "constructor raises for every argument combination", ci=ci, text=f"ctor-raises:{ci.name}")
             continue
-        # STABLE: same attribute list in the same order on every non-raising path
-        orders = {tuple(k for k in o.attrs if not k.startswith("__")) for _, o in ok_paths}
+        # STABLE: same attribute list in the same order on every non-raising path, also when every optional
+        # parameter is omitted (None) - an attribute that only exists for some argument values breaks readers
+        kw_none = {n_: (sym(n_) if prm.required else Const(None)) for n_, prm in sig.named().items()}
+        res_none = abstract_construct(p, ci, kw_none, inline_prefixes=("indi.message.base.", "indi.message.defs.", "indi.message.sets.", "indi.message.news.", "indi.message.def_parts.", "indi.message.one_parts.", "indi.message.get_properties.", "indi.message.enable_blob.", "indi.message.del_property.", "indi.message.pings.", "indi.message.one_light."))
+        ok_paths_all = ok_paths + [(pa, o) for pa, o in res_none if pa.outcome == "return"]
+        orders = {tuple(k for k in o.attrs if not k.startswith("__")) for _, o in ok_paths_all}
         if len(orders) != 1:
             ctx.violated("C03.STABLE", ci.short, f"the set/order of instance attributes depends on the path taken in the constructor: {sorted(orders)}", ci=ci, text=f"unstable:{ci.name}")
         else:
